@@ -247,7 +247,7 @@ int main(int argc, char **argv) {
     if (!first) os << ",\n"; first = false;
     Type *vt = g.getValueType();
     os << "{\"name\":" << q(g.getName()) << ",\"ty\":" << q(tyStr(vt)) << ",\"size\":" << (vt->isSized() ? DL.getTypeAllocSize(vt).getFixedSize() : 0)
-       << ",\"constant\":" << (g.isConstant() ? "true" : "false") << ",\"linkage\":" << (g.hasLocalLinkage() ? "\"local\"" : "\"external\"")
+       << ",\"constant\":" << (g.isConstant() ? "true" : "false") << ",\"linkage\":" << (g.hasLocalLinkage() ? "\"local\"" : "\"external\"") << ",\"visibility\":" << (g.hasHiddenVisibility() ? "\"hidden\"" : "\"default\"")
        << ",\"decl\":" << (g.isDeclaration() ? "true" : "false") << ",\"tls\":" << (g.isThreadLocal() ? "true" : "false");
     SmallVector<DIGlobalVariableExpression *, 1> gves; g.getDebugInfo(gves);
     if (!gves.empty()) {
